@@ -105,6 +105,17 @@ class SA(np.ndarray):
                 value = value.reshape(-1)[0]
         _ND_SET(self, key, value)
 
+    # object arrays raise ZeroDivisionError on x / 0 where float arrays give nan / inf
+    def __truediv__(self, other):
+        return _ieee_div(self, other)
+
+    def __rtruediv__(self, other):
+        return _ieee_div(other, self)
+
+    def __itruediv__(self, other):
+        self[...] = _ieee_div(self, other)
+        return self
+
     def __array_wrap__(self, obj, context=None, return_scalar=False):
         if obj.ndim == 0 and obj.dtype == object:
             return obj[()]
@@ -129,6 +140,25 @@ class SA(np.ndarray):
                     return wrap(out.reshape(self.shape))
                 return np.array([int(v) for v in flat], dtype=dt).reshape(self.shape)
         return wrap(np.ndarray.astype(self, dtype, *a, **kw))
+
+
+def _div_el(a, b):
+    if isinstance(a, _SYM) or isinstance(b, _SYM):
+        return a / b
+    try:
+        return a / b
+    except ZeroDivisionError:
+        if a != a or a == 0:
+            return float("nan")
+        return float("inf") if a > 0 else float("-inf")
+
+
+_div_uf = np.frompyfunc(_div_el, 2, 1)
+
+
+def _ieee_div(a, b):
+    r = _div_uf(a, b)
+    return wrap(r) if isinstance(r, np.ndarray) else r
 
 
 def _trunc(v: SymReal):
